@@ -88,7 +88,8 @@ def run(ctx):
         cfgs = [lib.Cfg('arch', 4, '4.1'), lib.Cfg('debian', 3, '3.0'), lib.Cfg('ubuntu', 4, '4.0', full=True), lib.Cfg('whonix', 3, '3.0'),
                 lib.Cfg('opensuse', 4, '4.0', full=True), lib.Cfg('debian', 4, '4.1', full=True), lib.Cfg('whonix', 4, '4.1'),
                 # ABI and version are independent options: the mixed pairs are configurations too
-                lib.Cfg('arch', 3, '4.1'), lib.Cfg('ubuntu', 4, '3.0', full=True), lib.Cfg('opensuse', 3, '4.0')]
+                lib.Cfg('arch', 3, '4.1'), lib.Cfg('ubuntu', 4, '3.0', full=True), lib.Cfg('opensuse', 3, '4.0'),
+                lib.Cfg('debian', 4, '4.0'), lib.Cfg('whonix', 3, '4.1')]
     else:
         cfgs = [lib.Cfg(d, a, v, 'none', f) for d in lib.DISTS for (a, v) in lib.ABIVERS for f in (False, True)]
 
@@ -177,6 +178,47 @@ def run(ctx):
         for t in trees:
             shutil.rmtree(t, ignore_errors=True)
     ctx.cov['search']['prepare_history'] = {'targets_in_one_process': nhist, 'differing_from_own_process': nhdiff}
+    # ---- single-file mode (`prebuild --file F`, the development loop): the policy directory then holds that file and nothing
+    # else, whatever an earlier whole-tree build and planted junk left in the build directory
+    singles = ['apparmor.d/profiles-a-f/acpid', 'apparmor.d/groups/pacman/pacman']
+    if ctx.tier == 'thorough':
+        singles += ['apparmor.d/groups/apt/apt', 'apparmor.d/profiles-s-z/sudo', 'apparmor.d/groups/browsers/firefox', 'apparmor.d/profiles-g-l/htop', 'apparmor.d/groups/gnome/gnome-shell']
+    singles = [f for f in singles if os.path.exists(os.path.join(lib.REPO, f))]
+    nsing = nsbad = 0
+
+    def single(fpath):
+        cfg = lib.Cfg('arch', 4, '4.1')
+        tree = os.path.join(ctx.scratch, 'single-' + os.path.basename(fpath))
+        lib.copy_tree(tree)
+        env = dict(os.environ, DISTRIBUTION=cfg.dist)
+        rc0, _ = lib.sh([ctx.path('prebuild')] + cfg.args() + ['--file', fpath], cwd=tree, env=env, timeout=300)
+        clean = dict(listing(os.path.join(tree, '.build'), 'apparmor.d')) if rc0 == 0 else None
+        shutil.rmtree(os.path.join(tree, '.build'), ignore_errors=True)
+        lib.real_build(ctx, lib.Cfg('arch', 4, '4.1', full=True), tree=tree)
+        for junk in ('apparmor.d/zz-junk', 'apparmor.d/abstractions/zz-junk', 'apparmor.d/tunables/zz.d/junk'):
+            pj = os.path.join(tree, '.build', junk)
+            os.makedirs(os.path.dirname(pj), exist_ok=True)
+            open(pj, 'w').write('junk\n')
+        rc1, _ = lib.sh([ctx.path('prebuild')] + cfg.args() + ['--file', fpath], cwd=tree, env=env, timeout=300)
+        dirty = dict(listing(os.path.join(tree, '.build'), 'apparmor.d')) if rc1 == 0 else None
+        shutil.rmtree(tree, ignore_errors=True)
+        return fpath, clean, dirty
+
+    with ThreadPoolExecutor(max_workers=6) as ex:
+        sres = list(ex.map(single, singles))
+    for fpath, clean, dirty in sres:
+        nsing += 1
+        if clean is None or dirty is None:
+            nsbad += 1
+            ctx.violation('prebuild --file %s failed' % fpath, {'file': fpath})
+            continue
+        base = os.path.basename(fpath)
+        extra = sorted(k for k in dirty if k not in clean)
+        if not set(clean) <= {'apparmor.d/' + base} or extra or any(dirty.get(k) != v for k, v in clean.items()):
+            nsbad += 1
+            ctx.violation('prebuild --file %s: the policy directory holds %s on an empty build directory and %d more entries (%s) over an earlier build' % (
+                fpath, sorted(clean)[:3], len(extra), extra[:4]), {'file': fpath, 'clean': sorted(clean)[:10], 'leaked_over_earlier_build': extra[:40]})
+    ctx.cov['search']['single_file_mode'] = {'files': nsing, 'failing': nsbad}
     ctx.cov['evaluations'] += nent
     ctx.count_distinct([c.name() for c in cfgs])
     ctx.cov['search']['real_prepare'] = {'configs': len(cfgs), 'entries_compared': nent}
